@@ -311,7 +311,7 @@ def build_modeldrv():
     sh(['coqc', '-Q', COQ, 'Adm', '-o', os.path.join(edir, 'Extract.vo'),
         os.path.join(COQ, 'Extract', 'Extract.v')], cwd=edir, check=True)
     odir = os.path.join(ROOT, 'harness', 'ocaml')
-    srcs = ['conv.ml', 'codec_time.ml', 'heap_drv.ml', 'xml_drv.ml', 'acc_drv.ml', 'modes.ml', 'modeldrv.ml']
+    srcs = ['conv.ml', 'codec_time.ml', 'heap_ops2.ml', 'heap_drv.ml', 'xml_drv.ml', 'acc_drv.ml', 'modes.ml', 'modeldrv.ml']
     srcs = [s for s in srcs if os.path.exists(os.path.join(odir, s))]
     for s in srcs:
         shutil.copy(os.path.join(odir, s), edir)
